@@ -82,10 +82,16 @@ static void ob_resume_with_target(H<T>& h)
             std::size_t j = i + 1;
             while (j < n && !(mask & (std::size_t(1) << j))) ++j;
             std::vector<std::size_t> seg(calls.begin() + i, calls.begin() + j);
-            std::size_t const before = cur.results().size();
-            // every resumption uses a newly constructed callback, as a restarted program does
-            cur = A::run(w, seg, cur, hep::callback<typename A::chk>(hep::callback_mode::silent, "", target));
-            stopped = cur.results().size() - before < seg.size();   // the target was reached: nothing left to resume
+            // every resumption uses a newly constructed callback, as a restarted program does; its last answer tells
+            // whether the target was reached (then there is nothing left to resume)
+            bool last_answer = true;
+            struct recording
+            {
+                hep::callback<typename A::chk> inner; bool* last;
+                bool operator()(typename A::chk const& c) { *last = inner(c); return *last; }
+            };
+            cur = A::run(w, seg, cur, recording{hep::callback<typename A::chk>(hep::callback_mode::silent, "", target), &last_answer});
+            stopped = !last_answer;
             i = j;
         }
         h.check("C03,C12|resume.with_target_precision_final_text_identical_to_uninterrupted_run",
